@@ -110,7 +110,9 @@ func (br *botRunner) UpdateTableState(table *pokertable.Table) error {
 		// New game
 		if gs.GameID != br.curGameID {
 			br.curGameID = gs.GameID
-		} else if br.lastGameStateTime >= gs.UpdatedAt {
+		}
+
+		if br.lastGameStateTime >= gs.UpdatedAt {
 			// Ignore if game state is too old
 			//fmt.Println(br.playerID, table.ID)
 			// fmt.Printf("[DEBUG#botRunner#UpdateTableState] [2] No reaction required since lastGameStateTime >= currentGameStateTime. Bot PlayerID: %s, TableID: %s\n", br.playerID, table.ID)
